@@ -229,6 +229,23 @@ def run(ctx):
         if found:
             n_sites += 1
     R.floor("rpc_txinfo_sites", n_sites, 6)
+    # "an eth_call made at a block boundary": what the simulation reads from the chain state (the sender's nonce, the height it
+    # runs at) is read *after* the wait for the boundary - a value read before it describes the block that was still open
+    n_bw = 0
+    for name in ("read_contract", "read_contract_multi"):
+        top = em[name]
+        for g_ in [top] + F.descendants(top.id):
+            waits_ = [c_ for c_ in g_.calls() if not g_.is_cleanup(c_.bb) and (c_.method or "") in ("wait_for_no_waiting_txes", "require_no_waiting_txes")]
+            if not waits_:
+                continue
+            for c_ in g_.calls():
+                if g_.is_cleanup(c_.bb) or (c_.method or "") not in ("get_account_nonce", "get_next_block_height", "get_latest_block_height"):
+                    continue
+                n_bw += 1
+                R.ob(any(g_.sdominates(w_.bb, c_.bb) and w_.bb != c_.bb for w_ in waits_), "SIBLING", c_.where(), "SIBLING|%s|read-after-boundary:%s" % (name, c_.method),
+                     "%s reads %s before it has waited for the block boundary: a transaction added to the open block in between makes the "
+                     "simulation run with a stale value" % (name, c_.method), sample={"rule": "SIBLING (DOM-before)", "site": name, "a": "wait_for_no_waiting_txes", "b": c_.method})
+    R.floor("simulation_state_reads_after_boundary", n_bw, 2)
     # what is read out of the result: "the success flag and return data equal those of the transaction".  The execution path
     # records `is_success()` of revm's ExecutionResult in the receipt (the reference predicate, read from the receipt
     # constructor's call site); each simulation result must report the same predicate of its result - not a weaker one such as
